@@ -397,9 +397,6 @@ func handleReuse(reuse Tensor, expectedShape Shape, safe bool) (retVal *Dense, e
 			err = errors.Wrapf(err, opFail, "handling reuse")
 			return
 		}
-		if !safe {
-			return
-		}
 		if retVal.IsView() && retVal.RequiresIterator() {
 			// the products write their result as one plain array: a non-contiguous view cannot take it (re-laying it out, as
 			// is done for other destinations below, would write over the parent's elements between the view's)
